@@ -25,6 +25,8 @@ pub fn universe_id(i: usize) -> WId {
     let mut id = WId::v4(&format!("u{i}"), (i % 3) as u64, 8000 + i as u16);
     if i % 5 == 0 {
         id.ip = WIp::V6([i as u8; 16]);
+    } else if i % 7 == 3 {
+        id.ip = WIp::V6([0, 0, 0, 0, 0, 0, 0, 0, 0, 0, 0xff, 0xff, 10, 0, 0, i as u8]);
     }
     id
 }
